@@ -52,6 +52,9 @@ def build_tree(tree, full, ctl_names=True):
     # long paths: three nested names of 80 two-byte characters (a percent-encoded URL of well over 1024 bytes), a name of 255 bytes
     tree.write("long/" + "\xe9" * 80 + "/" + "\xfc" * 80 + "/" + "\xf1" * 80 + "/deep.txt", b"deep\n")
     tree.write("long/" + "n" * 255, b"255\n")
+    # link blocks with relative paths that climb and come back (they are listed normalised, or could not be followed)
+    tree.write("docs/sub/.Links", b"Name=Sibling document\nType=0\nPath=../a.txt\n\n"
+                                  b"Name=Doubled slash\nType=1\nPath=..//sub\n\nName=Up and down\nType=0\nPath=x/../deep.txt\n")
     # thirteen nested names of 120 non-UTF-8 bytes: 1.6 KiB on disk, a percent-encoded link of more than 4 KiB
     tree.write(b"long13/" + b"/".join(bytes([0xe0 + k]) * 120 for k in range(13)) + b"/bottom.txt", b"bottom\n")
     # a mailbox and a Maildir whose names are as long as a name can be (255 bytes): their messages are virtual selectors below them
